@@ -212,6 +212,7 @@ GEN_OK = ("(all(Space(task, a.position) for a in {g}.agents)"
 # a recorded generation owns its list: it is never the optimizer's live population list (pydantic copies the list)
 GEN_OWN = "{g}.agents is not self._population"
 CC = "self._current_cycle"
+SELF_RUN_FIELDS = ["_population", "_best_agent", "_worst_agent", "_current_cycle", "_errors", "_error_diffs", "_mode", "_workers", "_task"]
 
 contract(A + "optimize", params=dict(task="Task", mode="opt[str]", workers="opt[int]"), returns="OptimizationResult",
          cases=OBJ_CASES, locals=dict(evolution="list[Population]"),
@@ -235,6 +236,8 @@ contract(A + "optimize", params=dict(task="Task", mode="opt[str]", workers="opt[
              ("history-ok", "all(" + GEN_OK.format(g="evolution[g]") + " for g in range(" + CC + "))"),
              ("history-owns-its-lists", "all(" + GEN_OWN.format(g="evolution[g]") + " for g in range(" + CC + "))"),
              ("evolution-is-local", "evolution is not self._errors and evolution is not self._error_diffs"),
+             ("population-list-own", "self._population is old(self._population) or fresh(self._population)"),
+             ("caller-lists-untouched", "lists_unchanged_except(old(self._population))"),
          ] + [("pop-" + str(i), c) for i, c in enumerate(POP_OK)]},
          decreases={"loop1": "self._config.max_cycles - " + CC},
          ghost_out={"best_index": "lambda z: sigma(self._population, None, 0)"},
@@ -254,8 +257,13 @@ contract(A + "optimize", params=dict(task="Task", mode="opt[str]", workers="opt[
               " result.best_solution.cost == result.evolution[len(result.rates)].agents[best_index(0)].cost"),
              ("best-is-optimal-in-the-task-direction",
               "all(not better(task.minmax, a.cost, result.best_solution.cost) for a in result.evolution[len(result.rates)].agents)"),
+             # C09: nothing but the optimizer's own run state is written: the configuration and the task (every field of
+             # every object that existed at entry, every list that existed at entry) are as they were
+             ("caller-objects-untouched", "heap_unchanged(" + ", ".join("'self.%s'" % f_ for f_ in SELF_RUN_FIELDS) + ")"),
+             ("caller-lists-untouched", "lists_unchanged_except(old(self._population))"),
          ],
-         properties=["C01", "C02", "C03", "C04", "C06", "C07", "C08", "C10", "C15", "C18"])
+         raises_ensures={"ValueError": ["heap_unchanged(" + ", ".join("'self.%s'" % f_ for f_ in SELF_RUN_FIELDS) + ")"]},
+         properties=["C01", "C02", "C03", "C04", "C06", "C07", "C08", "C09", "C10", "C15", "C18"])
 
 # ---- regrouping (C10): groups are copies of consecutive slices, plus the residual group of the last N mod g agents ----------------
 RES = "(self._config.population_size % n_groups)"
